@@ -19,7 +19,8 @@ MANIFEST = dict(
          'config_sleep/set_config_mode on a virtual-time event loop (scripted concurrent sleepers, loops re-sleeping on live config '
          'values, cancels, switches, ready-callback order shuffled) against the model driver - every GeckoConfig member after each '
          'switch, the wake time of every sleeper, the state of the shared future - plus the facade rule on real GeckoPump / '
-         'GeckoBlower / GeckoAsyncFacade objects; direct monitors on the real code with timer jitter on.',
+         'GeckoBlower / GeckoAsyncFacade objects; direct monitors on the real code with timer jitter on.'
+         ' Since session 3: the facade rule is exercised on facades built by the real constructor, observing the live table (with the opposite table installed beforehand), and over histories of real facades (reconnect with a pump running, external mode switch, ticks).',
     note='Partial: the timing clauses are theorems about the tick model (time = integer milliseconds of the virtual clock); real '
          'timer skew of an event loop is outside, the jittered runs only bound it. Assumed: asyncio.wait(timeout=) semantics, one '
          'event loop (the module-level future is foreign to a second loop), cancellation delivered at the next suspension point. '
